@@ -29,6 +29,7 @@ var Harnesses = map[string]func(){
 }
 
 const two64 = 18446744073709551616.0
+const maxFloat = 1.79769313486231570814527423731704356798070e+308
 const maxInt64 = uint64(1<<63 - 1)
 
 func H_MultCoin() {
@@ -164,7 +165,10 @@ func H_MultFloat64() {
 	var err error
 	vp.NoPanic("C18.multfloat.nopanic", func() { r, err = currency.MultFloat64(c, a) })
 	b := float64(uint64(c)) * a // IEEE: RNE conversion, RNE product
-	bad := vp.Or(floatBad(a), floatBad(b))
+	// the multiplier is an argument but not an amount: it is bad when NaN, negative or
+	// infinite; the product is the amount and must also fit a uint64
+	badArg := vp.Or(vp.Or(a != a, a < 0), a > maxFloat)
+	bad := vp.Or(badArg, floatBad(b))
 	vp.Observe("multfloat", uint64(r), err != nil)
 	vp.Assert("C18.multfloat.err-iff-unrepresentable", (err != nil) == bad)
 	vp.Assert("C18.multfloat.trunc", vp.Or(err != nil, vp.Or(bad, uint64(r) == uint64(b))))
